@@ -1,8 +1,23 @@
 #!/bin/bash
-# tools/try_seed.sh <patch> <Cxx> [<Cyy> ...] : apply a seeded change to /repo, run checks, undo
+# tools/try_seed.sh <patch> <Cxx> [<Cyy> ...]
+# Runs checks against a seeded change.  Default: a scratch worktree of /repo with the patch applied, the
+# checks pointed at it with VERIF_REPO and their outputs at VERIF_SCRATCH (so that /repo, /verif/evidence
+# and concurrently running registered checks are left alone).  With TRY_IN_REPO=1: apply to /repo itself
+# (git -C /repo apply), run, undo (git -C /repo checkout -- .), exactly as the registered commands see it.
 patch=$(realpath $1); shift
-git -C /repo apply "$patch" || { echo "patch does not apply"; exit 2; }
-for c in "$@"; do
-  echo "== $c"; timeout 1800 /verif/check $c --tier quick 2>&1 | grep -E "VIOLATION|KNOWN|^  " | head -6; echo "rc=${PIPESTATUS[0]}"
-done
-git -C /repo checkout -- . ; git -C /repo status --short | head
+par=${TRY_PAR:-4}
+if [ "$TRY_IN_REPO" = 1 ]; then
+  git -C /repo apply "$patch" || { echo "patch does not apply"; exit 2; }
+  for c in "$@"; do
+    echo "== $c"; timeout 1800 /verif/check $c --tier quick 2>&1 | grep -E "VIOLATION|KNOWN|^  " | head -6; echo "rc=${PIPESTATUS[0]}"
+  done
+  git -C /repo checkout -- . ; git -C /repo status --short | head
+  exit 0
+fi
+wt=$(mktemp -d /tmp/ts_XXXXXX); rmdir $wt
+git -C /repo worktree add -q --detach $wt HEAD || exit 2
+git -C $wt apply "$patch" || { echo "patch does not apply"; git -C /repo worktree remove --force $wt; exit 2; }
+scr=$(mktemp -d /tmp/tsscr_XXXXXX)
+printf '%s\n' "$@" | xargs -P $par -I{} bash -c "VERIF_REPO=$wt VERIF_SCRATCH=$scr/{} timeout 1800 /verif/check {} --tier quick > $scr/{}.log 2>&1; echo \"rc=\$?\" >> $scr/{}.log"
+for c in "$@"; do echo "== $c $(tail -1 $scr/$c.log)"; grep -E "VIOLATION|KNOWN|^  " $scr/$c.log | head -4; done
+git -C /repo worktree remove --force $wt; rm -rf $scr
